@@ -6,6 +6,7 @@ import Grexv.Lemmas.EndToEnd
 import Grexv.Props.C03
 import Grexv.Lemmas.RepPipeline
 import Grexv.Lemmas.RepElim
+import Grexv.Lemmas.EndToEndR
 
 /-!
 # C01 — soundness: the generated regex matches every test case (stage lemmas)
@@ -281,6 +282,27 @@ theorem repetitions_sound_any_anchor (cfg : Config) (env : Env) (ws : List Str) 
     · simp at hg; subst hg; rfl
   have := Dfa.carriesL_spells h2 hcounts
   rwa [hflat] at this
+
+/-- **C01 with repetition conversion, end to end on the model, all inputs** (`-r` with positive thresholds; no class option,
+case-sensitive, plain printing with both anchors; with or without capturing groups and `-e`): for every list of test cases each of at
+most 1000 graphemes (the regex crate's bound on a repetition count), every segmentation meeting its contract and every non-empty test
+case `t`: the text `Display for RegExp` writes is accepted by the model of `Regex::new`, and the compiled pattern matches `t` in full.
+Chain: S1–S4 (`rep_pipeline_sound`: the converted cluster expands to the test case), S5 (the trie stands for it whatever the widening
+merge does), S6 (stable partition for transition relations; this is where defect D17 was), S7 (`rep_final_expr`: the expression denotes
+the automaton's label sequences; well-formed: `rep_final_wfs`), S8/S9 (`parse_printedR`: the printed text with `x{m,n}` / `(?:unit){m,n}`
+and nested repetitions is read back as `bothR`; `Expr.soundR`: those items denote every string the labels spell; `matchP_exactC`: the
+matcher is exact on counted repetition) -/
+theorem repetitions_sound (cfg : Config) (hp : RepPrint cfg) (env : Env) (ws : List Str) (st : Stages)
+    (h : regExpFrom cfg env ws = .ok st) (hseg : ∀ w ∈ ws, Grexv.SegOK env w)
+    (hlen : ∀ w ∈ ws, (clusterOfPieces (env.segOf w)).length ≤ 1000)
+    (t : Str) (ht : t ∈ ws) (hne : t ≠ []) :
+    ∃ P, Spec.parse (fmtRegExp cfg st.finalAst) = some (⟨false, false⟩, P) ∧ Spec.fullMatch false P t = true :=
+  rep_end_to_end cfg hp env ws st h hseg hlen t ht hne
+
+/-- the settings are satisfiable: `-r` alone, `-r -g -e` with thresholds 2 and 3 -/
+example : RepPrint { rep := true } ∧ RepPrint { rep := true, cap := true, esc := true, minRep := 2, minLen := 3 } :=
+  ⟨⟨rfl, by decide, ⟨rfl, rfl, rfl, rfl, rfl, rfl⟩, rfl, rfl, rfl, rfl, rfl, rfl⟩,
+   ⟨rfl, by decide, ⟨rfl, rfl, rfl, rfl, rfl, rfl⟩, rfl, rfl, rfl, rfl, rfl, rfl⟩⟩
 
 /-- the input on which the unrepaired minimisation lost `ycc`, evaluated by the kernel on the model (the correspondence stream
 compares the same input with the implementation) -/
